@@ -18,23 +18,39 @@ def oracle_of(v):
 
 
 def rows(kind):
+    """default-seed results (files without a -seed tag); later files win"""
     out = {}
     for f in sorted(glob.glob(os.path.join(VERIF, "reports", kind + "-*.json"))):
+        if "-seed" in os.path.basename(f) or "-only-" in os.path.basename(f):
+            continue
         for r in json.load(open(f))["results"]:
             out[(r["property"], r["change"])] = r
+    return out
+
+
+def other_seeds(kind):
+    """(property, change) -> list of (seed, detected) from the -seed<N> reports"""
+    out = {}
+    for f in sorted(glob.glob(os.path.join(VERIF, "reports", kind + "-*-seed*.json"))):
+        d = json.load(open(f))
+        for r in d["results"]:
+            out.setdefault((r["property"], r["change"]), []).append((d["seed"], r["detected"]))
     return out
 
 
 def main():
     s = open(os.path.join(VERIF, "DESIGN.md")).read()
     seeded = rows("seeded")
-    lines = ["| change (`seeded/<name>`) | property | what it is / what it needs | caught by (quick check) | replay fails on changed / passes on unchanged tree |", "|---|---|---|---|---|"]
+    others = other_seeds("seeded")
+    lines = ["| change (`seeded/<name>`) | property | what it is / what it needs | caught by (quick check, default seed) | replay fails on changed / passes on unchanged tree | other seeds (quick) |", "|---|---|---|---|---|---|"]
     for d in sorted(glob.glob(os.path.join(VERIF, "seeded", "*", "meta.json"))):
         m = json.load(open(d))
         r = seeded.get((m["property"], m["name"]))
         caught = "not run" if r is None else (oracle_of(r.get("violation")) if r["detected"] else "**missed**")
         rep = "" if r is None or not r["detected"] else "%s / %s" % ("yes" if r.get("replay_fails_on_changed_tree") else "no", "yes" if r.get("replay_passes_on_unchanged_tree") else "no")
-        lines.append("| %s | %s | %s Needs: %s | %s | %s |" % (m["name"], m["property"], m["summary"].replace("|", "/"), m["needs_to_manifest"].replace("|", "/"), caught, rep))
+        os_ = others.get((m["property"], m["name"]), [])
+        oth = "%d of %d" % (sum(1 for _, d_ in os_ if d_), len(os_)) if os_ else ""
+        lines.append("| %s | %s | %s Needs: %s | %s | %s | %s |" % (m["name"], m["property"], m["summary"].replace("|", "/"), m["needs_to_manifest"].replace("|", "/"), caught, rep, oth))
     s = re.sub(r"(<!-- BEGIN seeded-table[^>]*-->\n).*?(<!-- END seeded-table -->)", lambda mm: mm.group(1) + "\n".join(lines) + "\n" + mm.group(2), s, flags=re.S)
     sens = rows("sensitivity")
     lines = ["| edit (`lib/sensitivity.py`) | property | caught by (quick check) | replay fails on changed / passes on unchanged tree |", "|---|---|---|---|"]
